@@ -220,3 +220,104 @@ def build_c02(cell):
         a, prim, proto = make_slab(cell["material"], tuple(cell["facet"]), cell["layers"], cell["pbc_z"])
         dim = 2
     return a, prim, proto, dim
+
+
+# ------------------------------------------------------------------------------------------- C03 universe
+FCC_METALS = ["Al", "Ca", "Ni", "Cu", "Sr", "Rh", "Pd", "Ag", "Ce", "Yb", "Ir", "Pt", "Au", "Pb", "Ac", "Th"]
+BCC_METALS = ["Li", "Na", "K", "V", "Cr", "Fe", "Rb", "Nb", "Mo", "Cs", "Ba", "Eu", "Ta", "W"]
+
+
+def _a(sym):
+    return float(reference_states[atomic_numbers[sym]]["a"])
+
+
+def c03_pairs(max_mismatch=0.05):
+    out = []
+    for group, facets in ((FCC_METALS, ("100", "111")), (BCC_METALS, ("100", "110"))):
+        for A, B in itertools.permutations(group, 2):
+            if abs(_a(B) - _a(A)) / _a(A) < max_mismatch:
+                for f in facets:
+                    out.append((A, B, f))
+    return out
+
+
+def c03_cells():
+    cells = []
+    for A, B, f in c03_pairs():
+        for la, lb in ((3, 3), (4, 3), (3, 5), (5, 4)):
+            for nlat in (4, 5):
+                for pbc_z in (True, False):
+                    for noise in (0.0, 0.03):
+                        for reg in ("ontop", "hollow"):
+                            c = {"A": A, "B": B, "facet": f, "la": la, "lb": lb, "n": nlat, "pbc_z": pbc_z, "noise": noise, "registry": reg}
+                            c["key"] = "%s/%s|%s|L%d+%d|%dx%d|%s|n%.2f|%s" % (A, B, f, la, lb, nlat, nlat, "TTT" if pbc_z else "TTF", noise, reg)
+                            cells.append(c)
+    return cells
+
+
+def _metal_slab(sym, facet, n, layers, a):
+    from ase.build import fcc100, fcc111, bcc100, bcc110
+    lat = reference_states[atomic_numbers[sym]]["symmetry"]
+    if lat == "fcc":
+        fn = fcc100 if facet == "100" else fcc111
+    else:
+        fn = bcc100 if facet == "100" else bcc110
+    s = fn(sym, size=(n, n, layers), a=a, vacuum=0.0)
+    return _plain(s)
+
+
+def build_c03(cell, delta=0.25, vacuum=9.0):
+    """Returns (atoms, {'A': indices, 'B': indices})"""
+    A, B, f, n = cell["A"], cell["B"], cell["facet"], cell["n"]
+    sa = _metal_slab(A, f, n, cell["la"], _a(A))
+    sb = _metal_slab(B, f, n, cell["lb"], _a(B))
+    ca, cb = sa.get_cell().array, sb.get_cell().array
+    # strain B in plane onto A's surface cell (its own layer spacing is kept)
+    newcb = np.array([ca[0], ca[1], cb[2]])
+    sb.set_cell(newcb, scale_atoms=False)
+    frac = np.linalg.solve(cb[:2, :2].T, sb.get_positions()[:, :2].T).T
+    posb = sb.get_positions()
+    posb[:, :2] = frac @ ca[:2, :2]
+    sb.set_positions(posb)
+    za, zb = sa.get_positions()[:, 2], sb.get_positions()[:, 2]
+    top = sa.get_positions()[np.abs(za - za.max()) < 1e-6]
+    bot_mask = np.abs(zb - zb.min()) < 1e-6
+    bot = sb.get_positions()[bot_mask]
+    u1, u2 = ca[0] / n, ca[1] / n
+    target = covalent_radii[atomic_numbers[A]] + covalent_radii[atomic_numbers[B]] + delta
+    # lateral registry: B's bottom layer on top of / in the hollows of A's top layer
+    shift = top[0, :2] - bot[0, :2]
+    if cell["registry"] == "hollow":
+        shift = shift + (0.5 * (u1 + u2))[:2] if f == "100" else shift + ((u1 + u2) / 3.0)[:2]
+    posb = sb.get_positions()
+    posb[:, :2] += shift
+    # lateral distance from a bottom-B atom to the nearest top-A atom (with in-plane periodicity)
+    pb = posb[bot_mask][0, :2]
+    best = np.inf
+    for i, j in itertools.product(range(-1, 2), repeat=2):
+        d = np.linalg.norm(top[:, :2] + i * ca[0, :2] + j * ca[1, :2] - pb, axis=1).min()
+        best = min(best, d)
+    if best >= target:
+        dz = 0.5
+    else:
+        dz = float(np.sqrt(target ** 2 - best ** 2))
+    posb[:, 2] += za.max() + dz - zb.min()
+    sb.set_positions(posb)
+    both = sa + sb
+    height = posb[:, 2].max() - za.min()
+    cell3 = np.array([ca[0], ca[1], [0, 0, height + vacuum]])
+    both.set_cell(cell3)
+    both.set_pbc([True, True, bool(cell["pbc_z"])])
+    both.translate([0, 0, vacuum / 2 - za.min()])
+    return _plain(both), {"A": list(range(len(sa))), "B": list(range(len(sa), len(sa) + len(sb)))}
+
+
+def interface_precondition(atoms, groups, threshold=BOND_THRESHOLD, margin=MARGIN):
+    """the two slabs are bonded across the interface (some A-B pair bonded with margin)"""
+    r = np.asarray(covalent_radii)[atoms.get_atomic_numbers()]
+    pos = atoms.get_positions()
+    ia, ib = np.array(groups["A"]), np.array(groups["B"])
+    diffs = (pos[ia][:, None, :] - pos[ib][None, :, :]).reshape(-1, 3)
+    _, d, _ = omic.mic_vectors(diffs, atoms.get_cell().array, atoms.get_pbc())
+    corr = d.reshape(len(ia), len(ib)) - r[ia][:, None] - r[ib][None, :]
+    return bool((corr <= threshold - margin).any())
